@@ -30,7 +30,9 @@ CSV_VARIANTS = {
     'header': 'Pattern,Merchant,Category,Subcategory\n',
     'comments': 'Pattern,Merchant,Category,Subcategory\n# nothing yet\n\n   \n#NETFLIX,Netflix,Subscriptions,Streaming\n',
     'indented': 'Pattern,Merchant,Category,Subcategory\n  \t RENT,Landlord,Housing,Rent\n',
-    'noheader': 'NETFLIX,Netflix,Subscriptions,Streaming\n',
+    'noheader': 'NETFLIX,Netflix,Subscriptions,Streaming\nCOFFEE,Coffee Shop,Food,Coffee\n',
+    'empty': '',
+    'blank': '\n\n',
 }
 VIEWS = '[Big]\ndescription: Large merchants\nfilter: total > 1000\n'
 RULES_VARIANTS = {
@@ -41,6 +43,19 @@ RULES_VARIANTS = {
     'empty': '',
     'comments': '# Tally Merchant Rules\n#\n# [Example]\n# match: contains("X")\n# category: C\n\n',
 }
+GITIGNORE_VARIANTS = {
+    True: '# mine\nsecrets/\n',
+    'own-style': '/data\n*.html\n',
+    'repo': '__pycache__/\n*.pyc\nnode_modules/\n.env\n',
+    'partial': 'data/\n',
+    'tally': '# Tally - Ignore sensitive data\ndata/\noutput/\n',
+    'no-newline': 'output/\n/data',
+    'empty': '',
+}
+STRAYS = {'README.md': '# my budget\n', '{R}README.md': 'inner readme\n', '{R}config/README.txt': 'how I set this up\n',
+          '{R}config/notes.md': '- remember rent\n', '{R}config/settings.yaml.orig': 'year: 2024\n',
+          '{R}data/README': 'exports go here\n', '{R}data/2024-old.csv': 'Date,Description,Amount\n2024-01-01,OLD,1.00\n',
+          'todo.txt': 'file taxes\n'}
 BAK_OLD = 'Pattern,Merchant,Category,Subcategory\nOLDSTORE,Old Store,Shopping,Misc\n'
 
 
@@ -92,15 +107,21 @@ def gen_budget(rnd, force=None):
     rv = pick('rules', [False, False, False, True, True, True, 'transforms', 'syntaxerr', 'empty', 'comments'])
     if rv:
         files[root + 'config/merchants.rules'] = RULES_VARIANTS[rv]
-    csv = pick('csv', [None, 'rules', 'rules', 'rules', 'header', 'comments', 'indented', 'noheader'])
+    csv = pick('csv', [None, None, 'rules', 'rules', 'rules', 'header', 'comments', 'indented', 'noheader', 'empty', 'blank'])
     if csv:
         files[root + 'config/merchant_categories.csv'] = CSV_VARIANTS[csv]
     if pick('bak', [False, False, True]):
         files[root + 'config/merchant_categories.csv.bak'] = BAK_OLD
     if pick('views', [False, True]):
         files[root + 'config/views.rules'] = VIEWS
-    if pick('gitignore', [False, True]):
-        files[root + '.gitignore'] = '# mine\nsecrets/\n'
+    gv = pick('gitignore', [False, False, True, 'own-style', 'repo', 'partial', 'tally', 'no-newline', 'empty'])
+    if gv:
+        files[root + '.gitignore'] = GITIGNORE_VARIANTS[gv]
+    if root and pick('outer_gitignore', [False, False, True]):
+        files['.gitignore'] = GITIGNORE_VARIANTS['repo']      # the budget sits in somebody's repository
+    strays = pick('strays', [0, 0, 1, 2, 4, len(STRAYS)])
+    for name in (sorted(STRAYS) if strays == len(STRAYS) else rnd.sample(sorted(STRAYS), strays)):
+        files[name.replace('{R}', root)] = STRAYS[name]
     data = pick('data', ['rows', 'rows', 'rows', 'rows', 'empty', None])
     if data:
         files[root + 'data/bank.csv'] = DATA_ROWS if data == 'rows' else DATA_EMPTY
@@ -278,6 +299,24 @@ def directed_cases():
                              {'k': 'up', 'migrate': False, 'embedded': True, 'fmt': 'html', 'out': None}]
                             if mkey is None else
                             [{'k': 'init', 'target': '.', 'spell': 'abs/'} if layout == 'old' else {'k': 'init', 'target': None}]))
+    # ---- init keeps every pre-existing file byte-identical: .gitignore of every style, READMEs, stray files ----
+    for layout in ('old', 'new'):
+        for gv in (True, 'own-style', 'repo', 'partial', 'tally', 'no-newline', 'empty'):
+            out.append(({'layout': layout, 'settings': 'full', 'data': 'rows', 'mkey': 'rules', 'rules': True, 'csv': None,
+                         'views': True, 'vkey': True, 'gitignore': gv, 'outer_gitignore': True, 'strays': len(STRAYS)},
+                        [{'k': 'init', 'target': None}] if gv != 'own-style' else
+                        [{'k': 'init', 'target': None}, {'k': 'up', 'migrate': False, 'embedded': True, 'fmt': 'html', 'out': None},
+                         {'k': 'discover', 'args': []}, {'k': 'init', 'target': None}]))
+    out.append(({'layout': 'old', 'settings': 'absent', 'rules': False, 'csv': None, 'views': False, 'gitignore': 'own-style',
+                 'strays': len(STRAYS), 'data': 'rows'}, [{'k': 'init', 'target': '.', 'spell': 'abs'}]))
+    # ---- a legacy CSV from which no rule loads is still the user's file: `up` without --migrate must not migrate ----
+    for layout in ('old', 'new'):
+        for cv in ('header', 'comments', 'noheader', 'empty', 'blank'):
+            up = lambda fmt: {'k': 'up', 'migrate': False, 'embedded': True, 'fmt': fmt, 'out': None}
+            out.append(({'layout': layout, 'settings': 'full', 'data': 'rows', 'mkey': None, 'rules': False, 'csv': cv,
+                         'bak': False, 'views': False, 'strays': 2},
+                        [up('html'), up('json'), {'k': 'discover', 'args': ['--format', 'json']}, up('summary')]
+                        if cv in ('header', 'noheader') else [up('html')]))
     out.append(({'layout': 'none', 'notes': True, 'stray': True},
                 [{'k': 'up', 'migrate': True, 'embedded': True, 'fmt': 'html', 'out': None}, {'k': 'discover', 'args': []},
                  {'k': 'init', 'target': None}, {'k': 'init', 'target': None}]))
@@ -743,7 +782,8 @@ def main(tier):
     prio = ['-overwrites', '-removes:', '-rewrites:', '-writes-outside', '-appends-outside', '-renames:', '-creates:', '-utime:']
 
     def rank(x):
-        return (next((i for i, w in enumerate(prio) if w in x), len(prio)), x)
+        cls = next((i for i, w in enumerate(prio) if w in x), len(prio))
+        return (0 if cls <= 2 else cls, -len(viol[x]), x)     # loss of user data first, the most frequent facet of it
     for label, sigs in sorted(by_label.items()):
         sigs.sort(key=rank)          # lead with the loss of user data, then stray writes
         s = sigs[0]
